@@ -10,6 +10,7 @@ from concurrent.futures import ThreadPoolExecutor
 import vlib
 
 LEVEL = "model_checking"
+JVM = ["-XX:ParallelGCThreads=2"]
 ACCT_ARGS = ("a", "from", "o", "sp", "to")
 
 
@@ -66,7 +67,7 @@ def replay(ctx, binary, jobs, workers):
             part = behs[w * size:(w + 1) * size]
             if part:
                 shards[w] += [{"na": na, "cap": cap, "label": label}] + part
-    env = {"GNOROOT": vlib.REPO}
+    env = {"GNOROOT": vlib.REPO, "GOMAXPROCS": "3"}
 
     def one(shard):
         return vlib.run_driver(ctx, binary, [], behaviours=shard, timeout=3000, env_extra=env)
@@ -139,8 +140,8 @@ def run(ctx):
     def tlc(run_):
         label, cfg, dims, mode = run_
         if mode == "sim":
-            return vlib.run_tlc(ctx, "MCGRC20", cfg, mode="simulate", simulate=nsim, depth=31, tags=("TRACE",), timeout=3000)
-        return vlib.run_tlc(ctx, "MCGRC20", cfg, tags=("EDGE",) if mode.startswith("edge") else (), workers=4 if quick else 6, timeout=3000)
+            return vlib.run_tlc(ctx, "MCGRC20", cfg, mode="simulate", simulate=nsim, depth=31, tags=("TRACE",), timeout=3000, jvm=JVM)
+        return vlib.run_tlc(ctx, "MCGRC20", cfg, tags=("EDGE",) if mode.startswith("edge") else (), workers=4 if quick else 6, timeout=3000, jvm=JVM)
     with ThreadPoolExecutor(max_workers=3) as ex:
         results = list(ex.map(tlc, runs))
     jobs = []
